@@ -18,7 +18,7 @@ CONSTANTS
   W_AppendAlwaysTruncates = FALSE
   W_HeartbeatCommitUnbounded = FALSE
   W_QuorumMinusOne = FALSE
-  PreVote = FALSE
+  PreVote = TRUE
   W_PreVoteRespCountsAsVote = FALSE
 INIT TraceInit
 NEXT TraceNext
